@@ -2,6 +2,7 @@ import QeepProps.C16x
 import QeepProps.C16z
 import QeepProps.C16w
 import QeepProps.C16u
+import QeepProps.C16t
 /-! C16 — all property theorems: `C16`, `C16x` (forward formula, the nine-node graph, the three back-edge paths and their
 results, the derivative statements) and `C16z` (end to end: what `BackPropagate` stores on `W` and `B` after `Forward`, in
-`sum` mode, and — the tree as it is — `B.Gradient() = 1` in `mean` mode, finding D2). `C16w`: `Forward` keeps the heap reachable; FC → Sigmoid composed (`fc_sigmoid_backprop`: the chain rule across two components from the two end-to-end theorems). `C16u` (`fc_x_in_walk`: the gradient the layer passes to its input, inside any walk, either mode); `C16v` (the weight path in `mean` mode). -/
+`sum` mode, and — the tree as it is — `B.Gradient() = 1` in `mean` mode, finding D2). `C16w`: `Forward` keeps the heap reachable; FC → Sigmoid composed (`fc_sigmoid_backprop`: the chain rule across two components from the two end-to-end theorems). `C16u` (`fc_x_in_walk`: the gradient the layer passes to its input, inside any walk, either mode); `C16v` (the weight path in `mean` mode). `C16t` (`fc_edge_ok`: every back edge of the layer's graph accepts a gradient of its tensor's shape). -/
